@@ -14,6 +14,21 @@ warn_on_retrace_num = int(os.environ.get("EINX_WARN_ON_RETRACE", 0))
 max_cache_size = int(os.environ.get("EINX_CACHE_SIZE", -1))
 
 
+class _Scalar:
+    # Python compares and hashes numbers across types (2 == 2.0 == True). As part of a cache key,
+    # a number must only match a number of the same type, since the cached function may depend on the type.
+    __slots__ = ("value",)
+
+    def __init__(self, value):
+        self.value = value
+
+    def __eq__(self, other):
+        return isinstance(other, _Scalar) and type(self.value) is type(other.value) and self.value == other.value
+
+    def __hash__(self):
+        return hash((type(self.value), self.value))
+
+
 def _freeze_value(x):
     if isinstance(x, np.ndarray):
         return _freeze_value(x.tolist())
@@ -25,6 +40,19 @@ def _freeze_value(x):
         return _freeze_value(vars(x))
     elif isinstance(x, inspect.Parameter):
         return _freeze_value((x.name, x.default, x.annotation, x.kind))
+    elif isinstance(x, bool | int | float | np.integer | np.floating | np.bool_):
+        return _Scalar(x)
+    else:
+        return x
+
+
+def _unfreeze_scalars(x):
+    if isinstance(x, _Scalar):
+        return x.value
+    elif isinstance(x, tuple):
+        return tuple(_unfreeze_scalars(x) for x in x)
+    elif isinstance(x, frozendict.frozendict):
+        return frozendict.frozendict({k: _unfreeze_scalars(v) for k, v in x.items()})
     else:
         return x
 
@@ -37,6 +65,16 @@ def _freeze_args(func):
         return func(*args, **kwargs)
 
     return func_frozen
+
+
+def _unfreeze_scalar_args(func):
+    @functools.wraps(func)
+    def func_unfrozen(*args, **kwargs):
+        args = [_unfreeze_scalars(a) for a in args]
+        kwargs = {k: _unfreeze_scalars(v) for k, v in kwargs.items()}
+        return func(*args, **kwargs)
+
+    return func_unfrozen
 
 
 def _with_retrace_warning(func):
@@ -96,6 +134,7 @@ def _with_retrace_warning(func):
 # 1. allows using some mutable objects (np.ndarray, list and dict) as keys
 # 2. warns if there are more than EINX_WARN_ON_RETRACE cache failures from the same call site
 def lru_cache(func):
+    func = _unfreeze_scalar_args(func)
     func = _with_retrace_warning(func)
 
     if max_cache_size > 0:
